@@ -217,6 +217,11 @@ func (h *dnsCryptHandler) ServeDNS(rw dnscrypt.ResponseWriter, r *dns.Msg) (err 
 
 	ctx = ContextWithRequestInfo(ctx, &RequestInfo{StartTime: time.Now()})
 
+	// The DNSCrypt library calls this method from its own goroutines without
+	// recovering, so a panic in the handler would bring the whole process down
+	// instead of being recovered per request as it is with the other protocols.
+	defer h.srv.handlePanicAndRecover(ctx)
+
 	nrw := NewNonWriterResponseWriter(rw.LocalAddr(), rw.RemoteAddr())
 	written := h.srv.serveDNSMsg(ctx, r, nrw)
 	if !written {
